@@ -410,7 +410,7 @@ func checkQMx(c mxCase) *vk.Failure {
 	return nil
 }
 
-func drawMx(t *rapid.T, maxN int, allowNilW bool) mxCase {
+func drawMx(t *rapid.T, maxN int, allowNilW, forQ bool) mxCase {
 	c := mxCase{}
 	c.Directed = rapid.Bool().Draw(t, "directed")
 	d := rapid.IntRange(1, 3).Draw(t, "depth")
@@ -433,13 +433,23 @@ func drawMx(t *rapid.T, maxN int, allowNilW bool) mxCase {
 			c.Layers = append(c.Layers, genEdges(smRnd{vk.NewSplitMix(seed)}, c.N, class, c.Directed, rapid.Bool().Draw(t, "unit")))
 		}
 	}
-	if rapid.IntRange(0, 9).Draw(t, "firstempty") == 0 {
+	if rapid.IntRange(0, 19).Draw(t, "firstempty") == 0 {
 		c.Layers[0] = nil
 	}
 	c.Unweight = rapid.SliceOfN(rapid.Bool(), d, d).Draw(t, "unweighted")
-	if !(allowNilW && rapid.IntRange(0, 4).Draw(t, "nilw") == 0) {
+	nilw := allowNilW && rapid.IntRange(0, 4).Draw(t, "nilw") == 0
+	if nilw && d >= 2 && !forQ {
+		// ModularizeMultiplex faults on nil weights with >= 2 layers (known
+		// finding, asserted by the contract sub-check): keep that rare
+		nilw = rapid.IntRange(0, 4).Draw(t, "nilw2") == 0
+	}
+	if !nilw {
 		for l := 0; l < d; l++ {
-			switch rapid.IntRange(0, 7).Draw(t, "wcls") {
+			cls := rapid.IntRange(0, 7).Draw(t, "wcls")
+			if cls == 0 && l == 0 && !forQ && rapid.IntRange(0, 3).Draw(t, "w0first") != 0 {
+				cls = 4
+			}
+			switch cls {
 			case 0:
 				c.LayerW = append(c.LayerW, 0)
 			case 1, 2:
@@ -465,5 +475,5 @@ func drawMx(t *rapid.T, maxN int, allowNilW bool) mxCase {
 }
 
 func TestQMultiplex(t *testing.T) {
-	vk.Run(t, "qmx", vk.Opts{Quick: 3000, Thorough: 70000}, func(t *rapid.T) mxCase { return drawMx(t, 40, true) }, checkQMx)
+	vk.Run(t, "qmx", vk.Opts{Quick: 3000, Thorough: 70000}, func(t *rapid.T) mxCase { return drawMx(t, 40, true, true) }, checkQMx)
 }
